@@ -7,6 +7,7 @@ package rules
 
 import (
 	"fmt"
+	"go/constant"
 	"go/token"
 	"math"
 
@@ -833,21 +834,85 @@ func runTConv(m *model.Model, s *ob.Set) {
 			cc, zpp := c, zp
 			it := stdInterp(m)
 			b := func(v bool) ([]cdai.Val, bool) { return []cdai.Val{cdai.Bool(v)}, true }
+			// the float64 argument is one abstract class (NaN, ±0, ±Inf, ±finite): every way of
+			// interrogating it is answered from that class
 			it.Models["math.IsNaN"] = func(*cdai.Interp, *cdai.State, string, []cdai.Val) ([]cdai.Val, bool) { return b(cc.nan) }
 			it.Models["math.Signbit"] = func(*cdai.Interp, *cdai.State, string, []cdai.Val) ([]cdai.Val, bool) { return b(cc.neg) }
-			it.Models["math.IsInf"] = func(*cdai.Interp, *cdai.State, string, []cdai.Val) ([]cdai.Val, bool) { return b(cc.inf) }
+			it.Models["math.IsInf"] = func(_ *cdai.Interp, _ *cdai.State, _ string, args []cdai.Val) ([]cdai.Val, bool) {
+				if len(args) == 2 {
+					if k, ok := args[1].(cdai.Const); ok && k.V != nil && k.V.Kind() == constant.Int {
+						switch constant.Sign(k.V) {
+						case 1:
+							return b(cc.inf && !cc.neg)
+						case -1:
+							return b(cc.inf && cc.neg)
+						}
+					}
+				}
+				return b(cc.inf)
+			}
+			it.Models["math.Float64bits"] = func(*cdai.Interp, *cdai.State, string, []cdai.Val) ([]cdai.Val, bool) {
+				return []cdai.Val{cdai.Sym{Name: "bits(x)"}}, true
+			}
 			it.BinHook = func(op token.Token, x, y cdai.Val) (cdai.Val, bool) {
-				_, sx := x.(cdai.Sym)
-				_, sy := y.(cdai.Sym)
-				if !sx && !sy {
+				sx, isx := x.(cdai.Sym)
+				sy, isy := y.(cdai.Sym)
+				if !isx && !isy {
 					return nil, false
 				}
-				// comparison of the float argument with the constant 0
+				// the sign bit of the IEEE representation
+				if isx && sx.Name == "bits(x)" {
+					if k, ok := y.(cdai.Const); ok && op == token.SHR && k.V != nil && k.V.Kind() == constant.Int {
+						if v, _ := constant.Int64Val(k.V); v == 63 {
+							if cc.neg {
+								return cdai.Int(1), true
+							}
+							return cdai.Int(0), true
+						}
+					}
+					return cdai.TopV, true
+				}
+				if isy && sy.Name == "bits(x)" {
+					return cdai.TopV, true
+				}
+				// x compared with itself: only NaN differs from itself
+				if isx && isy && sx.Name == sy.Name {
+					switch op {
+					case token.EQL:
+						return cdai.Bool(!cc.nan), true
+					case token.NEQ:
+						return cdai.Bool(cc.nan), true
+					}
+					return cdai.TopV, true
+				}
+				// comparison of the float argument with the constant 0 (the only constant the code may
+				// meaningfully compare an abstract class with)
+				other := y
+				flip := false
+				if isy {
+					other, flip = x, true
+				}
+				if k, ok := other.(cdai.Const); !ok || k.V == nil || constant.Sign(constant.ToFloat(k.V)) != 0 {
+					return cdai.TopV, true
+				}
+				neg := cc.neg && !cc.zero && !cc.nan
+				pos := !cc.neg && !cc.zero && !cc.nan
+				if flip {
+					neg, pos = pos, neg
+				}
 				switch op {
 				case token.EQL:
 					return cdai.Bool(cc.zero), true
 				case token.NEQ:
 					return cdai.Bool(!cc.zero), true
+				case token.LSS:
+					return cdai.Bool(neg), true
+				case token.GTR:
+					return cdai.Bool(pos), true
+				case token.LEQ:
+					return cdai.Bool(neg || cc.zero), true
+				case token.GEQ:
+					return cdai.Bool(pos || cc.zero), true
 				}
 				return cdai.TopV, true
 			}
